@@ -177,6 +177,55 @@ def query_scalar_rule(ctx, w):
     ctx.floor("hand-written types flattened into a query", n_t, 1)
 
 
+def query_sequence_rule(ctx, w):
+    """(thorough tier.) The query codec (serde_html_form) writes a sequence as one `key=value` pair per element, so the empty sequence is written as
+    no pair at all: on the wire it is the absent key. The receiving side therefore has to read the absent key of a sequence field as the empty
+    sequence - a derived RequestQuery deserializer that asks `missing_field` for it rejects the request the sender built, and a default function that
+    returns elements turns `[]` into them."""
+    rule = "C16.query-sequences"
+    ctx.rule(rule, "derived Deserialize of every RequestQuery: a field of sequence type (Vec / BTreeSet / boxed slice) that is absent is read as the empty sequence "
+                   "(serde(default) / a default function that builds no element), because the empty sequence is encoded as the absent key")
+    SEQ = ("alloc::vec::Vec<", "alloc::collections::btree::set::BTreeSet<", "alloc::boxed::Box<[", "std::collections::HashSet<", "indexmap::set::IndexSet<")
+    n_fields = 0
+    for p, a in w.adts.items():
+        if p.endswith("::RequestQuery") and a["kind"] == "Struct":
+            n_fields += sum(1 for v in a["variants"] for f in v["fields"] if str(f["ty"]).startswith(SEQ))
+    ctx.floor("sequence-typed query fields", n_fields, 7)
+    n_vis = 0
+    for g in w.all_fns():
+        if "body" not in g or not re.search(r"RequestQuery>::deserialize::__Visitor.*::visit_map$", g["path"]):
+            continue
+        n_vis += 1
+        ep = PCkey(g["path"]).split(" for ", 1)[-1].split("::RequestQuery")[0][-90:]
+        seen = set()
+        for _, c in M.calls(g["body"]):
+            cn = M.callee_name(c)
+            fa = c.get("fnargs") or []
+            if cn.endswith("de::missing_field") and len(fa) > 1 and str(fa[1]).startswith(SEQ):
+                name = c["args"][0].get("v") if c["args"] and c["args"][0].get("k") == "const" else "?"
+                key = f"{rule}:{ep}:{name}:required"
+                if key not in seen:
+                    seen.add(key)
+                    ctx.violation(rule, key, w.where(g, c["line"]),
+                                  f"query field `{name}` ({fa[1]}) of {ep} has no default: the empty sequence is written as no `{name}=` pair, and the receiving side "
+                                  f"fails with `missing field {name}` - a request the encoder accepted does not survive the wire")
+                continue
+            h = w.lookup(cn)
+            if h is None or "body" not in h or h["body"].get("argc", 0) != 0 or not str(h["body"]["locals"][0]).startswith(SEQ):
+                continue
+            builds = [M.callee_name(c2) for _, c2 in M.calls(h["body"]) if not re.search(r"::(new|default|with_capacity)$", M.callee_name(c2))]
+            key = f"{rule}:{ep}:{cn.rsplit('::', 1)[-1]}:non-empty-default"
+            if builds and key not in seen:
+                seen.add(key)
+                ctx.violation(rule, key, w.where(h),
+                              f"a sequence-typed query field of {ep} defaults to the value of {cn}, which builds elements ({builds[0].rsplit('::', 1)[-1]}): the empty "
+                              f"sequence is written as the absent key and comes back as that default")
+            elif not builds:
+                ctx.ok(rule, f"{rule}:{ep}:{cn.rsplit('::', 1)[-1]}", w.where(h), "default function builds the empty sequence")
+    ctx.floor("derived RequestQuery deserializers", n_vis, 50)
+    ctx.ok(rule, f"{rule}:scan", "", f"{n_fields} sequence-typed query fields in {n_vis} RequestQuery deserializers")
+
+
 def version_literal_rule(ctx, w):
     """The `metadata!` macro turns the version literals of an endpoint's history (`1.14 => "/path"`) into MatrixVersion values through
     MatrixVersion::from_parts; into_parts is its inverse. A wrong table entry records a path under another version, so select_path offers it to
@@ -624,9 +673,11 @@ def run(ctx):
         header_write_rule(ctx, w)
         optional_header_rule(ctx, w)
         query_scalar_rule(ctx, w)
+        query_sequence_rule(ctx, w)
         # query / body carrier structs of the API crates: an omitted field must be read back as the omitted value
         from . import C18 as _C18
         _C18.defaults_rule(ctx, w, "C16.defaults", {}, floor=1, only=lambda p_: "ruma_common::" not in p_.split(" for ", 1)[-1][:14])
+        _C18.predicate_coverage_rule(ctx, w, "C16.skip-predicates", floor=3)
     ctx.assumptions += ["serde_html_form / serde_json round-trip values of the carrier types; field-level serde symmetry is checked in C18.symmetry",
                         "select_path over arbitrary subsets of versions is not decided (only that it is the function used)"]
     ctx.samples += [{"endpoint": "federation membership::create_join_event::v2", "path_args": 2, "query": "RequestQuery", "body": "RequestBody"}]
